@@ -76,7 +76,7 @@ type hist struct {
 	h    *simval.History
 }
 
-var histKinds = []string{"unmarshal-merge-split", "reflect-sorted", "reflect-permuted", "extras-delete", "grow-shrink", "struct", "struct-empty-notnil", "unmarshal-shuffled", "clone", "merge", "overwrite", "reflect-truncate"}
+var histKinds = []string{"morph", "unmarshal-merge-split", "reflect-sorted", "reflect-permuted", "extras-delete", "grow-shrink", "struct", "struct-empty-notnil", "unmarshal-shuffled", "clone", "merge", "overwrite", "reflect-truncate"}
 
 func marshalVariant(m proto.Message, api int, prefix []byte) (b []byte, err error) {
 	defer func() {
@@ -167,7 +167,7 @@ func run(c *simrun.Ctx) *simrun.Violation {
 	var firstFail string
 	var trivOrders, multiOrders int
 	for hi := 0; hi < nH; hi++ {
-		kind := histKinds[0]
+		kind := "reflect-sorted" // the first history is the plain one
 		if hi > 0 {
 			kind = histKinds[t.Draw("hkind", len(histKinds))]
 		}
@@ -225,6 +225,10 @@ func run(c *simrun.Ctx) *simrun.Violation {
 			err = safeUnmarshal(enc, mm)
 			decodeInputs = append(decodeInputs, enc)
 			m = mm
+		case "morph":
+			// another value of the same type first, then transformed into this one
+			from := simval.Gen(t, md, cfg)
+			m, err = h.BuildMorph(from, av, mt)
 		case "unmarshal-merge-split":
 			// the stream cut in two at a record boundary: decode the first part,
 			// merge-decode the second
